@@ -11,9 +11,10 @@ from gen import P, Q, TR, FA, L0, M0
 def rewrite_event(c):
     """c: {tid, op, logic, kind, f}"""
     Lang = LANGS[c['logic']]
-    ev = {'tid': c['tid'], 'op': c['op'], 'logic': c['logic'], 'kind': c['kind'], 'f': c['f']}
+    ev = {'tid': c['tid'], 'op': c['op'], 'logic': c['logic'], 'kind': c['kind'], 'f': c['f'], 'style': c.get('style', 'obj')}
     try:
-        obj = to_obj(T(c['f']), Lang)
+        import synfam
+        obj = synfam.build(T(c['f']), Lang, c.get('style', 'obj'))
         if c['op'] == 'restrict':
             g = obj.get_equivalent_restricted_formula()
         else:
@@ -26,6 +27,12 @@ def rewrite_event(c):
         ev['exc'] = type(ex).__name__
         ev['g'] = ['false']
     return ev
+
+
+def rename(f, m):
+    if f[0] == 'ap':
+        return ('ap', m.get(f[1], f[1]))
+    return (f[0],) + tuple(rename(x, m) if isinstance(x, (tuple, list)) else x for x in f[1:])
 
 
 def nots(f, k):
@@ -75,10 +82,27 @@ def run(ctx):
         for f in (gen.samp(rnd, pool, 50) if q else pool):
             for k in range(5):
                 cases.append({'op': 'lnot', 'logic': lg, 'kind': kind, 'f': nots(f, k)})
+    # the same formulas built from plain str/bool operands (constructor shorthand) and with atom names that are
+    # case variants of the constants / look like keywords (semantically they are ordinary atoms: renamed back below)
+    extra = []
+    shallow = [c for c in cases if c['op'] == 'restrict' and gen.size(T(c['f'])) <= 7]
+    for c in rnd.sample(shallow, min(len(shallow), 500 if q else 12000)):
+        extra.append(dict(c, style='raw'))
+    odds = [{'p': 'False', 'q': 'tRue'}, {'p': 'True', 'q': 'x'}, {'p': 'None', 'q': 'Until'}, {'p': 'a', 'q': 'FALSE'}]
+    for i, c in enumerate(rnd.sample(cases, min(len(cases), 400 if q else 8000))):
+        odd = odds[i % len(odds)]
+        extra.append(dict(c, f=rename(T(c['f']), odd), back={v: k for k, v in odd.items()}, style=rnd.choice(['obj', 'raw'])))
+    cases += extra
     for i, c in enumerate(cases):
         c['tid'] = i
         c['f'] = T(c['f'])
     events = pmap(rewrite_event, cases)
+    for c, e in zip(cases, events):
+        if c.get('back'):          # judge over {p,q}: consistent renaming does not change meaning or alphabet
+            e['f'] = rename(T(e['f']), c['back'])
+            if 'g' in e:
+                e['g'] = rename(T(e['g']), c['back'])
+            e['renamed'] = 1
     ctx.evaluations += len(events)
     wrongmod = [e for e, c in zip(events, cases) if 'exc' not in e and e.get('glang') != c['logic']]
     verdicts = ctx.validate('TraceRewrite.tla', 'TraceRewrite_q.cfg' if q else 'TraceRewrite_t.cfg', events)
